@@ -4,6 +4,7 @@ import (
 	"bytes"
 	"errors"
 	"fmt"
+	"io/ioutil"
 	"log"
 
 	"github.com/jcmturner/gokrb5/v8/crypto"
@@ -92,6 +93,10 @@ func (pac *PACType) Unmarshal(b []byte) (err error) {
 // ProcessPACInfoBuffers processes the PAC Info Buffers.
 // https://msdn.microsoft.com/en-us/library/cc237954.aspx
 func (pac *PACType) ProcessPACInfoBuffers(key types.EncryptionKey, l *log.Logger) error {
+	if l == nil {
+		// service.Settings.Logger() is nil unless a logger was configured
+		l = log.New(ioutil.Discard, "", 0)
+	}
 	for _, buf := range pac.Buffers {
 		if buf.Offset > uint64(len(pac.Data)) || uint64(buf.CBBufferSize) > uint64(len(pac.Data))-buf.Offset {
 			return fmt.Errorf("PAC info buffer of type %d (offset %d, size %d) is outside the %d bytes of the PAC", buf.ULType, buf.Offset, buf.CBBufferSize, len(pac.Data))
